@@ -219,7 +219,7 @@ def jobs(tier):
     js = []
     o = {"witnesses": 1}
     oc = {"index_concretize_limit": 8, "witnesses": 1}
-    for est, fpr in [(1, .5), (3, .28), (3, .2), (5, .3), (5, .22)] + ([(10, .05)] if tier == "thorough" else []):
+    for est, fpr in [(1, .5), (3, .28), (3, .25), (3, .2), (4, .25), (5, .3), (5, .22)] + ([(10, .05)] if tier == "thorough" else []):
         for ch in CHANNELS:
             js.append({"h": "c05.roundtrip", "cfg": {"kind": "bloom", "est": est, "fpr": fpr, "channel": ch}, "opts": dict(o, cost=est)})
     for est, fpr in [(1, .5), (1, .3), (2, .3)] + ([(3, .2)] if tier == "thorough" else []):
